@@ -54,6 +54,40 @@ def random_heap(rng, nops, order):
     return lines
 
 
+HUGE = [2 ** 31 - 64, 2 ** 31 - 8, 2 ** 31, 2 ** 31 + 1, 2 ** 32 - 64, 2 ** 32 - 63, 2 ** 32 - 1, 2 ** 32, 2 ** 32 + 1, 2 ** 32 + 100, 2 ** 32 + 2 ** 31 + 5]
+
+
+def big_heap(rng):
+    """requests of 2 GiB, 4 GiB and more in an arena of 12 GiB of address space (byte counts that do not fit 31 / 32 bits), mixed with
+    small blocks; at most two huge blocks live at a time; a huge block is only grown in place (at the top of the heap) or shrunk"""
+    lines = ["R heapbig"]
+    live, huge, nid = [], [], 0
+    budget = [11 * 2 ** 30]        # the break never passes the sum of all requests made, kept below the 12 GiB of the arena
+    def pick():
+        ok = [h for h in HUGE if h + 4096 <= budget[0]]
+        if not ok: return None
+        h = rng.choice(ok); budget[0] -= h + 4096
+        return h
+    for step in range(rng.randrange(8, 16)):
+        r = rng.random()
+        h = pick() if r < 0.30 or (0.55 <= r < 0.65) else None
+        if r < 0.30 and h:
+            nid += 1; lines.append("Malloc %d %d" % (nid, h)); huge.append(nid)
+        elif r < 0.55:
+            nid += 1; lines.append("Malloc %d %d" % (nid, rng.choice(SIZES))); live.append(nid)
+        elif 0.55 <= r < 0.65 and live and h:
+            i = live.pop(rng.randrange(len(live))); lines.append("Realloc %d %d" % (i, h)); huge.append(i)      # small -> huge (copies the small block)
+        elif r < 0.75 and huge:
+            i = huge.pop(rng.randrange(len(huge))); lines.append("Realloc %d %d" % (i, rng.choice(SIZES))); live.append(i)     # huge -> small (in place)
+        elif r < 0.88 and huge:
+            lines.append("Free %d" % huge.pop(rng.randrange(len(huge))))
+        elif live:
+            lines.append("Free %d" % live.pop(rng.randrange(len(live))))
+    for i in rng.sample(live + huge, len(live + huge)):
+        lines.append("Free %d" % i)
+    return lines
+
+
 def random_pool(rng, kind, cap, el, nops):
     lines = ["R %s %d %d" % (kind, cap, el)]
     nlive = 0
@@ -85,6 +119,8 @@ def check(ctx):
     n = 1500 if ctx.thorough else 300
     for i in range(n):
         rnd += random_heap(ctx.rng, 120, ["lifo", "fifo", "rand"][i % 3])
+    for i in range(200 if ctx.thorough else 40):
+        rnd += big_heap(ctx.rng)
     pools = []
     for i in range(n):
         k = ["ph", "ip", "sop"][i % 3]
@@ -99,7 +135,7 @@ def check(ctx):
     for b in bad: b["driver"] = "drv_alloc"
     ctx.report(bad)
     ctx.assumptions += [
-        "heap: arena 1 MiB supplied as _heap_start, malloc/free/realloc symbols renamed igv_*; scripts keep <= 60 live blocks (the library asserts __allocation_counter < 100)",
+        "heap: arena 1 MiB supplied as _heap_start (and 12 GiB of lazily committed address space for requests of 2 GiB / 4 GiB and more, logged in 8-byte units), malloc/free/realloc symbols renamed igv_*; scripts keep <= 60 live blocks (the library asserts __allocation_counter < 100)",
         "alignment required: 8 bytes for heap blocks (one size_t header), natural alignment of the element for pools",
         "block contents are observed through a per-block byte pattern written by the driver (an observation, like guard bytes)",
     ]
@@ -113,11 +149,12 @@ def replay(ctx, path):
     nl = []
     for e in d["execution"]:
         n = e["e"]
-        if n == "Reset": lines.append("R heap" if e["kind"] == "heap" else "R %s %d %d" % (e["kind"], e["cap"], e["el"])); nl = []
-        elif n == "Malloc": lines.append("Malloc %d %d" % (e["id"], e["n"]))
+        def nb(e): return e["nh"] * 2 ** 20 + e["nl"] if e.get("unit") == 8 else e["n"]
+        if n == "Reset": lines.append(("R heapbig" if e.get("unit") == 8 else "R heap") if e["kind"] == "heap" else "R %s %d %d" % (e["kind"], e["cap"], e["el"])); nl = []
+        elif n == "Malloc": lines.append("Malloc %d %d" % (e["id"], nb(e)))
         elif n == "Free": lines.append("Free %d" % e["id"])
         elif n == "FreeNull": lines.append("FreeNull")
-        elif n == "Realloc": lines.append("Realloc %d %d" % (e["id"], e["n"]))
+        elif n == "Realloc": lines.append("Realloc %d %d" % (e["id"], nb(e)))
         elif n == "PAlloc":
             lines.append("PAlloc")
             if e["cell"] >= 0: nl.append(e["cell"])
